@@ -99,15 +99,18 @@ class Ruler(Generic[RuleFuncTv]):
                 continue
             for name in rule.alt:
                 chains.add(name)
-        self.__cache__ = {}
+        # build the mapping locally and publish it with a single assignment, so that a
+        # concurrent (or re-entrant) getRules never observes a half-built cache
+        cache: dict[str, list[RuleFuncTv]] = {}
         for chain in chains:
-            self.__cache__[chain] = []
+            cache[chain] = []
             for rule in self.__rules__:
                 if not rule.enabled:
                     continue
                 if chain and (chain not in rule.alt):
                     continue
-                self.__cache__[chain].append(rule.fn)
+                cache[chain].append(rule.fn)
+        self.__cache__ = cache
 
     def at(
         self, ruleName: str, fn: RuleFuncTv, options: RuleOptionsType | None = None
@@ -267,11 +270,13 @@ class Ruler(Generic[RuleFuncTv]):
         That's done intentionally, to keep signature monomorphic for high speed.
 
         """
-        if self.__cache__ is None:
+        cache = self.__cache__
+        if cache is None:
             self.__compile__()
-            assert self.__cache__ is not None
+            cache = self.__cache__
+            assert cache is not None
         # Chain can be empty, if rules disabled. But we still have to return Array.
-        return self.__cache__.get(chainName, []) or []
+        return cache.get(chainName, []) or []
 
     def get_all_rules(self) -> list[str]:
         """Return all available rule names."""
